@@ -18,6 +18,49 @@ CHECKS = {
              "called), the NumPy valuation of the SI definition.  Real-size configurations are sampled, not exhausted.",
         technique="TLA+ model checking (TLC) of StftStream/SiStream + batched trace validation of recorded real executions",
         design="6 C01"),
+    "C02": dict(
+        text="TLC checks StftStream (compute_full's framing = FrameDef for every configuration and length) and SpectrumWalk (for every "
+             "(DFT size, start bin, length) the half-spectrum walk of both the NumPy and the PyTorch implementation pairs each tap with the "
+             "bin the documented Recipe names, terminates, never slices short).  Binding: compute_full of the real computer recorded with "
+             "token frames for every N<=3L+3 and validated by TLC (TraceStftDef); every exported (D,start,len) row replayed through the real "
+             "compute_full with random complex taps; real banks x scales x styles x windows x log/power/energy compared with the definition "
+             "evaluated from TLC-exported frames and the documented recipe; default frame length keeps a non-zero bin.",
+        note="Relative to get_truncated_response (C06 not claimed): the bank contract the recipe needs is monitored and breaches are listed, "
+             "not judged.  Trusted: numpy.fft.fft as the DFT, TLC.  D<=16 (quick) / 40 (thorough) for the exhaustive walk replay.",
+        technique="TLA+ model checking (TLC) of SpectrumWalk/StftStream + replay of specification-exported tables + trace validation",
+        design="6 C02"),
+    "C03": dict(
+        text="TLC checks SiStream: every output kept from a DFT block is a valid convolution of the right M inputs, every (output, window "
+             "column) pair is accumulated exactly once, the emitted frames equal the definition SiDef, frame count, dtype rule, for every "
+             "tiny configuration inside the precondition, every chunking, two utterances.  Binding: the definition frames exported by TLC "
+             "are evaluated by direct convolution and compared with the real SIFrameComputer (stub banks over the option matrix, float32/64; "
+             "real Gabor/gammatone/triangular banks at 8/16 kHz, lengths around 0, S, L, 1-3 DFT blocks, float16/32/64); private counters "
+             "of every call validated against SiStream by TLC (TraceSi).",
+        note="Trusted: the bank's get_impulse_response and the library's window taps (C07/C20), numpy.convolve, TLC.  Bounded: S<=3/4, "
+             "supports up to 5/7 taps, N<=12/20 for the exhaustive part.",
+        technique="TLA+ model checking (TLC) of SiStream + specification-exported definition evaluated against the real code + trace validation",
+        design="6 C03"),
+    "C04": dict(
+        text="TLC checks the C04_* invariants and action properties of StftStream and SiStream over multi-utterance histories (no stale or "
+             "junk token ever reaches a frame, reset after finalize, started exactly between first chunk and finalize, refused calls are "
+             "no-ops).  Binding: all histories of depth <=3 over a 10-letter alphabet plus random depth-12 histories are replayed on one "
+             "real instance per history; every call is validated by TLC against the definition-level trace spec (frames of every "
+             "utterance, started flag, ValueError protocol), and a probe utterance is compared bitwise with a fresh instance; inputs are "
+             "read-only and checksummed.",
+        note="Hidden state that neither changes a frame's content nor the probe utterance's bits within depth-12 histories would be missed. "
+             "Trusted: TLC, the frame-capturing wrapper.",
+        technique="TLA+ model checking (TLC) + batched trace validation of recorded multi-utterance histories",
+        design="6 C04"),
+    "C14": dict(
+        text="The PyTorch functional STFT is one of the two implementations walked in SpectrumWalk (TLC: pairs = Recipe for every "
+             "(D,start,len)); framing and the empty-output shape come from FrameDef.  Binding: the SpectrumWalk table and the C02 value matrix "
+             "are replayed through PyTorchSTFTFrameComputer.from_stft_frame_computer(c) and compared with c.compute_full (float64 "
+             "parameters), every length 0..3L+3 outside (L//2, L) for shapes and values in float32 and float64; Preemphasize, "
+             "PostProcessor wrapper, SI wrapper against their NumPy objects; the dither law x + coeff*G(seed); TorchScript against eager.",
+        note="Signals with frame_length//2 < N < frame_length are outside C14's statement (the port pads with a single reflection) and are "
+             "skipped.  Dither's moments are a distributional clause: sampled, reported under not_decided.",
+        technique="TLA+ model checking (TLC) of SpectrumWalk (impl=torch) + replay of specification-exported tables through the torch modules",
+        design="6 C14"),
 }
 
 NOT_APPLICABLE = {
